@@ -46,14 +46,18 @@ Satisfied(G) == G \in sat
 \* members holding resources, as the gang's match policy counts them
 Holding(g) == IF Cfg[g].policy = "waitrun" THEN Cardinality(Waiting(g)) + Cardinality(Bound(g))
               ELSE Cardinality(Waiting(g))
-GroupReady(G) == \A g \in G : Children(g) # {} /\ Holding(g) >= Cfg[g].min
+\* the once-satisfied exemption exists only under the once-satisfied match policy
+Exempt(g)  == Cfg[g].policy = "once" /\ Satisfied(Group(g))
+GangOK(g)  == Children(g) # {} /\ (Holding(g) >= Cfg[g].min \/ Exempt(g))
+GroupReady(G) == \A g \in G : GangOK(g)
 
 (***************************** property level ******************************)
-\* p passes Permit (evaluated in the state right after p was counted as assumed)
-ReleaseOK(p) == ~Satisfied(GroupOfPod(p)) => GroupReady(GroupOfPod(p))
-\* after a roll-back of p: who must have been rejected
+\* p passes Permit (evaluated in the state right after p was counted as assumed): every gang of the group has its
+\* minimum of members holding resources (or is exempt because it was satisfied once under that policy)
+ReleaseOK(p) == GroupReady(GroupOfPod(p))
+\* after a roll-back / scheduling failure of p: who must have been rejected
 \* (p must still be a member: the roll-back of a pod the informer already deleted is not a member's failure)
-MustReject(p) == IF member[p] /\ Cfg[GangOf[p]].strict /\ ~Satisfied(GroupOfPod(p))
+MustReject(p) == IF member[p] /\ Cfg[GangOf[p]].strict /\ ~Exempt(GangOf[p])
                  THEN {w \in fw : GangOf[w] \in GroupOfPod(p)} ELSE {}
 
 (******************************** transitions ******************************)
@@ -82,10 +86,12 @@ PermitStep(p, released) ==
     /\ fw'   = IF released THEN {w \in fw : GangOf[w] \notin GroupOfPod(p)} ELSE fw \cup {p}
     /\ UNCHANGED <<member, sat>>
 \* roll-back of an assumed pod (permit timeout, rejection, bind failure); rej = pods rejected by it
+\* (it may also arrive for a pod the informer already reports bound: the bind was persisted but the call returned
+\*  an error to the scheduler - such a pod stays bound)
 UnreserveStep(p, rej) ==
     /\ Fixed
-    /\ hold[p] = "assumed"
-    /\ hold' = [hold EXCEPT ![p] = "none"]
+    /\ hold[p] \in {"assumed", "bound"}
+    /\ hold' = IF hold[p] = "assumed" THEN [hold EXCEPT ![p] = "none"] ELSE hold
     /\ fw'   = (fw \ {p}) \ rej
     /\ UNCHANGED <<member, sat>>
 \* scheduling failure of a pending member (AfterPostFilter)
@@ -115,7 +121,7 @@ GangValid(g, h) ==
              [] OTHER -> W >= Cfg[g].min \/ Satisfied(Group(g))
 PermitRule(p) == \A g \in GroupOfPod(p) : GangValid(g, [hold EXCEPT ![p] = "assumed"])
 \* Unreserve / AfterPostFilter of core.go
-RejectRule(p) == IF Cfg[GangOf[p]].strict /\ ~(Cfg[GangOf[p]].policy = "once" /\ Satisfied(GroupOfPod(p)))
+RejectRule(p) == IF Cfg[GangOf[p]].strict /\ ~Exempt(GangOf[p])
                  THEN {w \in fw : GangOf[w] \in GroupOfPod(p)} ELSE {}
 
 DPermit(p)    == PermitStep(p, PermitRule(p))
